@@ -43,6 +43,19 @@ Theorem C03_output_max_padleft : forall s w fill, length (padleft s w fill) <= N
 Proof. exact padleft_length_max. Qed.
 Print Assumptions C03_output_max_padleft.
 
+(* The cap of the model is the cap of the source: Gen_magics.v records min(int(args[1]), CAP) of both functions; the
+   translator fails if the body of PADLEFT/PADRIGHT is anything but the modelled one (e.g. a second conversion path). *)
+Theorem C03_pad_cap_is_source_cap : gen_pad_cap_left = pad_cap /\ gen_pad_cap_right = pad_cap.
+Proof. exact pad_cap_generated. Qed.
+Print Assumptions C03_pad_cap_is_source_cap.
+
+(* MagicResolver.__call__ and the magics keep the exception-propagation discipline that C03/Model.v `run_magic` models
+   (an exception raised while a lazily expanded argument is flattened passes through the call): the translator counted
+   no try statement around method_to_invoke(args) and no argument fetch under a handler for Exception. *)
+Theorem C03_magic_calls_do_not_catch : gen_discipline_violations = 0.
+Proof. exact discipline_generated. Qed.
+Print Assumptions C03_magic_calls_do_not_catch.
+
 (* #titleparts never outputs more than its first argument, for all integers numseg and start. *)
 Theorem C03_output_bounded_titleparts : forall title numseg start,
   length (titleparts title numseg start) <= length title.
